@@ -15,6 +15,8 @@ Pipeline (model-based; the TLA+ specification decides) -- shares its machinery w
   3. Binding: the step interpolant handed to SolOut and Solution::sol of a single-step run on the impulse probe
      (probe_tableau.rs), evaluated at theta in {0, 1/8, 1/4, 1/2, 3/4, 1} (thorough: k/16 and random doubles), h = +1 and -1:
      component j IS b_j(theta) as the code computes it.
+     Landing-step probe: a two-step run (first_step = max_step = 1, span 1.3) whose second step is shortened; its interpolant is evaluated at
+     theta in {0, 1/4, 1/2, 1} of the ACTUAL step and must give y_1 + h_2 b_j(theta), and interpolant(x_new) must reproduce the state.
   4. Each extracted value is compared with the specification's polynomial evaluated exactly at theta (driver: exact rational
      distance in ulps of the evaluation scale; TLC: contract dist <= 16 on every record, spec/tableaux/Trace_Tableau.tla).
 """
@@ -114,6 +116,63 @@ def facts_from_dense(facts, job, rec):
                       got=ys[j - 1], want="%s = %.17g" % (d * exact, float(d * exact)), note=note)
 
 
+LAND_THETAS = [0.0, 0.25, 0.5, 1.0]
+LAND_NAMES = ["0", "1/4", "1/2", "1"]
+
+
+def facts_from_landing_dense(facts, job, rec):
+    """The interpolant of the SECOND, shortened step of a two-step run (callback interpolant / Solution::sol), evaluated at points
+    placed on the ACTUAL step [x_1, x_2]: component comp(j) must be y_1 + h_2 b_j(theta), every other component stays y_1, and the
+    value at x_2 must reproduce the state."""
+    m, dn, d, dense = job["method"], job["dirname"], job["dir"], job["dense"]
+    via = "land" if job["api"] == "lowlevel" else "land/solve_ivp"
+    t = tg.tab(m)
+    g = base.landing_geometry(job, rec)
+    if isinstance(g, str):
+        facts.add(m, "land_run", dn, via, CAP, 0, got=g, want="two completed steps")
+        return
+    x1, y1, x2, y2 = g
+    h2 = F(x2) - F(x1)
+    if job["api"] == "lowlevel":
+        evs = [e for e in rec["solout"] if untok(e["x"]) != 0.0]
+        if not evs[1]["has_interp"]:
+            facts.add(m, "land_interpolant", dn, via, CAP, 0, got="no interpolant for the second step", want="an interpolant")
+            return
+        dense_pts = evs[1]["dense"]
+        ih = evs[1].get("interp_h")
+        extra = " [the interpolant was built with h = %r, the step is %r long]" % (untok(ih), float(h2)) if ih and untok(ih) != float(h2) else ""
+    else:
+        dense_pts = rec["sol"]["dense"]
+        extra = ""
+    if len(dense_pts) != len(LAND_THETAS):
+        facts.add(m, "land_points", dn, via, CAP, 0, got="%d evaluation points" % len(dense_pts), want=len(LAND_THETAS))
+        return
+    stage_of = {base.comp(m, dense, j): j for j in range(1, base.last_stage(m, dense) + 1)}
+    for e, name in zip(dense_pts, LAND_NAMES):
+        xi = untok(e["xi"])
+        if "y" not in e:
+            facts.add(m, "land_sol@%s" % name, dn, via, CAP, 0, got=e.get("error") or e.get("panic"), want="a value at x=%r" % xi)
+            continue
+        th = (F(xi) - F(x1)) / h2
+        ys = [untok(v) for v in e["y"]]
+        carry = 0
+        for q in range(1, len(ys) + 1):
+            j = stage_of.get(q)
+            if j is None:
+                carry = max(carry, abs_dist(ys[q - 1], F(y1[q - 1]), abs(F(y1[q - 1]))))
+                continue
+            exact, scale = t.bth(j, th)
+            want = F(y1[q - 1]) + h2 * exact
+            facts.add(m, "land_bth_%d@%s" % (j, name), dn, via, abs_dist(ys[q - 1], want, max(abs(F(y1[q - 1])), abs(h2) * scale)), BOUND,
+                      got=ys[q - 1], want="y_1 + h_2 b_%d(%s) = %.17g" % (j, name, float(want)), note=("at x = %r of the step [%r, %r]" % (xi, x1, x2)) + extra)
+        facts.add(m, "land_carry@%s" % name, dn, via, carry, BOUND, got="a component that no stage of step 2 feeds moved by %s ulp" % carry,
+                  want="components of step 1 keep the value y_1", note=extra or None)
+        if xi == x2:
+            end = max(abs_dist(ys[q - 1], F(y2[q - 1]), abs(F(y2[q - 1]))) for q in range(1, len(ys) + 1))
+            facts.add(m, "land_end", dn, via, end, BOUND, got="interpolant(x_2) differs from the state by %s ulp" % (">= 2e9" if end >= CAP else end),
+                      want="interpolant(x_new) reproduces the state", note=extra or None)
+
+
 def run(tier, seed, replay=None, keep=False):
     t0 = time.time()
     work = vlib.workdir("c07-%d" % os.getpid())
@@ -140,10 +199,13 @@ def run(tier, seed, replay=None, keep=False):
                 th = float(F(th)) if "/" in th else float(th)
                 if th not in thetas:
                     thetas.append(th)
-        jobs = base.unit_jobs(methods, thetas)
+        jobs = base.unit_jobs(methods, thetas) + base.landing_jobs(methods, LAND_THETAS, apis=("lowlevel", "solve_ivp"))
         recs = base.run_probe(jobs, work, "c07")
         facts = Facts(PROP)
         for j in jobs:
+            if j["kind"] == "land":
+                facts_from_landing_dense(facts, j, recs[j["id"]])
+                continue
             # the continuous order conditions are about (c, A, b(theta)) jointly: bind c_i, a_ij, b_j too (same records as C02)
             base.facts_from_unit_run(facts, j, recs[j["id"]])
             facts_from_dense(facts, j, recs[j["id"]])
